@@ -897,9 +897,8 @@ inline void JSONWriter::WriteObjectKeyValue(const std::string &key, const ValueT
     Extend(os_, ", ");
   }
   WriteSeperator();
-  Extend(os_, '\"');
-  Extend(os_, key);
-  Extend(os_, "\": ");
+  WriteString(key);
+  Extend(os_, ": ");
   scope_counter_.back() += 1;
   json::Handler<ValueType>::Write(this, value);
 }
